@@ -203,7 +203,7 @@ def faulty_connection_class():
 AUX_ROWS = [(1, 10), (2, 20), (3, 30)]
 
 
-def build_env(diagram, path):
+def build_env(diagram, path, with_aux=True):
     import pony.orm as orm
     d = norm_diagram(diagram)
     env = Env()
@@ -221,8 +221,12 @@ def build_env(diagram, path):
     db.bind('sqlite', path, create_db=True, factory=env.conn_cls)
     db.generate_mapping(create_tables=True)
     env.db = db
-    # a second, independent database (entity X) for sessions that span two databases
+    env.aux_db = None
+    env.aux_conn_cls = faulty_connection_class()
     env.aux_path = path + '.aux'
+    if not with_aux:
+        return _finish_env(env, ns, d)
+    # a second, independent database (entity X) for sessions that span two databases
     if os.path.exists(env.aux_path):
         os.remove(env.aux_path)
     env.aux_conn_cls = faulty_connection_class()
@@ -237,6 +241,10 @@ def build_env(diagram, path):
     con.executemany('insert into "%s" values (?, ?)' % env.X._table_, AUX_ROWS)
     con.commit()
     con.close()
+    return _finish_env(env, ns, d)
+
+
+def _finish_env(env, ns, d):
     env.ents = {e: ns[e] for e in env.meta}
     if d['inherit']:
         env.ents['C2'] = ns['C2']
@@ -266,6 +274,8 @@ def build_env(diagram, path):
 def close_env(env):
     env.conn_cls.fail_commit = env.aux_conn_cls.fail_commit = False
     for db in (env.db, env.aux_db):
+        if db is None:
+            continue
         try:
             db.disconnect()
         except Exception:
@@ -290,7 +300,7 @@ def _raw(env):
 
 def dump_text(env):
     out = []
-    for path in (env.path, env.aux_path):
+    for path in (env.path, env.aux_path) if env.aux_db is not None else (env.path,):
         con = sqlite3.connect(path)
         try:
             out.append('\n'.join(con.iterdump()))
@@ -300,6 +310,8 @@ def dump_text(env):
 
 
 def aux_state(env):
+    if env.aux_db is None:
+        return {}
     con = sqlite3.connect(env.aux_path)
     try:
         return dict(con.execute('select id, val from "%s"' % env.X._table_).fetchall())
@@ -456,6 +468,8 @@ def restore_data(env):
         con.commit()
     finally:
         con.close()
+    if env.aux_db is None:
+        return
     con = sqlite3.connect(env.aux_path)
     try:
         con.execute('PRAGMA synchronous = OFF')
@@ -552,6 +566,7 @@ class Model(object):
         self.only_creates = True   # the session never needed the database (no connection was opened)
         self.unsaved = set()       # objects with something to save at the next flush
         self.uncertain_end = False
+        self.touch_all = False     # a delete (with its cascades) happened since the last commit
         self.aux = {}              # pk -> description of the objects of the second database (entity X)
         self.aux_pending = {1: 10, 2: 20, 3: 30}
         self.ncreated = 0
@@ -1037,6 +1052,7 @@ class Model(object):
             if not o['created']:
                 self.only_creates = False
             o['deleted'] = True
+            self.touch_all = True
             o['dirty'] = o['dirty_sure'] = True
             if o['created'] and o.get('unsaved_sure'):
                 self.unsaved.discard(h)     # a new object deleted before it was saved is cancelled: nothing to save
@@ -1099,6 +1115,7 @@ class Model(object):
 
     def on_commit(self):
         self.touched = set()
+        self.touch_all = False
         self.modified = False
         for h, o in self.mem.items():
             if o['created']:
@@ -1666,6 +1683,8 @@ class Oracle(object):
         """keys of entity `ent` whose links may differ between memory and database (rolled-back changes)"""
         if not self.rb:
             return set()
+        if self.m.touch_all:    # cascades of a rolled-back delete reach objects the script never saw
+            return set(self.s0[ent]) | set(self.s1[ent]) | set(h[1] for h in self.m.touched if h[0] == ent)
         return set(h[1] for h in self.m.touched if h[0] == ent)
 
     def scalar_cands(self, h, a, canon=True):
@@ -1870,6 +1889,9 @@ class Oracle(object):
             return None
         if a['kind'] in ('ref', 'o2orev') and is_symbolic(v):
             return None     # one of several objects created without a pk value: its row cannot be told apart
+        if a['kind'] in ('ref', 'o2orev') and self.m.uncertain_end and any(
+                h2[0] == a['type'] and is_symbolic(h2[1]) and self.actual_pk.get(h2) is None for h2 in self.m.mem):
+            return None     # the referred new object was saved, got a pk, then the commit failed
         if not any(type(v) is type(c) and v == c for c in cands):
             return self._fmt(op, out, 'one of %r' % (cands,))
         return None
@@ -2258,7 +2280,8 @@ def finish_check(p):
             pass
         with orm.db_session:
             p.env.db.execute('select 1')
-            p.env.aux_db.execute('select 1')
+            if p.env.aux_db is not None:
+                p.env.aux_db.execute('select 1')
     except Exception as e:
         return 'a fresh empty db_session after the operations raised %s: %s' % (type(e).__name__, e)
     d1 = dump_text(p.env)
